@@ -64,6 +64,8 @@ func execute(sc *Scenario, keepLog bool) (res *Result) {
 			runStream(sc, res, keepLog)
 		case sc.Ez != nil:
 			runEz(sc, res, keepLog)
+		case sc.Plain != nil && sc.Plain.Values:
+			runPlain2(sc, res, keepLog)
 		case sc.Plain != nil:
 			runPlain(sc, res, keepLog)
 		default:
